@@ -95,6 +95,7 @@ def doAccess (mode world spine checker impl : String) : String :=
           else "ok"
       else if ic == "fail" && model == "fail" && mrev && !irev then
         "fail:every candidate authorization was rejected by the revocation checker but the Unauthorized error reports no revocation"
+
       else "ok"
     let oracle := if chainOracle != "ok" then chainOracle else revOracle
     s!"{if agree then impl else model}\t{oracle}\t{mspine}"
@@ -192,6 +193,21 @@ def doDid (op arg : String) : String :=
     | "edverifier" => (match edVerifierDecode b with
         | some pub => s!"ok|{Bytes.toHexTok pub}" | none => "err") ++ "\t-"
     | _ => bad op
+
+open DidM in
+/-- `didread`: `schema.DIDString(WithMethod m)` -/
+def doDidRead (m arg impl : String) : String :=
+  match Bytes.ofHex arg with
+  | none => bad "hex"
+  | some b =>
+    let pfx : Bytes := if m == "-" then didPrefix else didPrefix ++ Bytes.ofString m ++ [58]
+    let model := if !pfx.isPrefixOf b then "err"
+      else match parse b with
+        | some d => s!"ok:{Bytes.toHexTok (toString d)}"
+        | none => "err"
+    let oracle := if model == impl then "ok"
+      else s!"fail:the DID reader (method {m}) answers {impl} where the DID rules give {model}"
+    s!"{model}\t{oracle}"
 
 open DidM in
 def doSigNew (code raw : String) : String :=
@@ -368,6 +384,7 @@ def handle (line : String) : String :=
                 s!"verified=T|same=T|altered={if alter == "none" then "T" else "F"}"
      | .error e => s!"bad-op:{e}") ++ "\t-"
   | ["cost", world, impl] => doCost world impl
+  | ["didread", m, arg, impl] => doDidRead m arg impl
   | ["cbor", v, _] => doCbor v
   | ["rcptconc", _, g, per, _, _] => (match g.toNat?, per.toNat? with
       | some g, some p => s!"issued={g * p}|bad=0\t-"
